@@ -83,6 +83,13 @@ def generate(rng, i):
     env = gen_epi.gen_env(rng, pf)
     if rng.random() < 0.25:
         env["state"]["inherited"] = True        # observers whose callbacks are all inherited from a parent class
+    if rng.random() < 0.06:
+        env["prior_env"] = True                 # the transmitter served another environment before this one was built
+    if rng.random() < 0.06:
+        # the caller reuses the list of timesteps for another transmitter and adds timesteps to that other one
+        from datetime import timedelta as _td
+        g = [core.parse_t(x) for x in env["grid"]]
+        env["grid_shared_with"] = [core.iso(g[j] + (g[j + 1] - g[j]) / 2) for j in range(len(g) - 1)][:3]
     ensure_nonlatent(env)
     d = Delivery(env, gen_epi.auto_disc(env))
     folds = list(env["folds"]) if env["folds"] else [None]
@@ -442,6 +449,10 @@ def execute(scenario):
         probe("environment_construction_refused")
     if scenario["envs"][0]["state"].get("inherited"):
         probe("observers_with_inherited_callbacks")
+    if scenario["envs"][0].get("prior_env"):
+        probe("second_environment_from_the_start")
+    if scenario["envs"][0].get("grid_shared_with"):
+        probe("timestep_list_shared_with_another_transmitter")
     if len(env_spec.get("grid_input", [])) > len(env_spec["grid"]):
         probe("duplicate_timesteps")
     if len(d.timesteps_with_events) < len(d.G):
